@@ -15,6 +15,7 @@ import (
 	"os"
 	"path/filepath"
 	"sort"
+	"strconv"
 	"strings"
 	"sync"
 	"sync/atomic"
@@ -286,8 +287,18 @@ func freeMB(dir string) uint64 {
 }
 
 func TestVerif_C04Pipe(t *testing.T) {
+	// The recording window in config.toml is wall-clock time of the place the device stands in.
+	// This process therefore lives in a time zone well away from UTC (set before anything else
+	// runs; nothing changes it later).
+	zones := []int{12*3600 + 45*60, -(9*3600 + 30*60), 5*3600 + 30*60}
+	zi, _ := strconv.Atoi(vEnv("VERIF_SEED", "1"))
+	if zi < 0 {
+		zi = -zi
+	}
+	time.Local = time.FixedZone("verif", zones[zi%len(zones)])
 	c := vStart(t, "C04", "TestVerif_C04Pipe")
 	defer c.Finish()
+	c.Note("process_time_zone_offset_seconds", fmt.Sprint(zones[zi%len(zones)]))
 	scratch := vEnv("VERIF_SCRATCH", t.TempDir())
 	cam := leptonCamera("lepton3", 16, 12, 9)
 	frames := c10Frames(cam, "ffffmmmmffffffffffffffffffffffffmmmmffffffffffffffffffffffff")
@@ -489,7 +500,12 @@ func TestVerif_C04PipeRetry(t *testing.T) {
 // ---------------------------------------------------------------- C17 wiring
 
 func TestVerif_C17Pipe(t *testing.T) {
-	c := vStart(t, "C17", "TestVerif_C17Pipe")
+	// also a job of C14: 'clear' markers in the stream, one of them inside a test recording
+	prop := vEnv("VERIF_PROP", "C17")
+	if prop != "C14" {
+		prop = "C17"
+	}
+	c := vStart(t, prop, "TestVerif_C17Pipe")
 	defer c.Finish()
 	scratch := vEnv("VERIF_SCRATCH", t.TempDir())
 	n := c.N(8, 64)
@@ -534,12 +550,33 @@ func TestVerif_C17Pipe(t *testing.T) {
 		if tiny {
 			nf *= 10
 		}
-		frames := genStream(rng, cam, 1, streamOpts{Frames: nf, MotionPct: rng.PickInt(0, 50, 100)})
+		motionPct := rng.PickInt(0, 50, 100)
+		frames := genStream(rng, cam, 1, streamOpts{Frames: nf, MotionPct: motionPct})
 		if lowDisk {
 			frames = genStream(rng, cam, 1, streamOpts{Frames: nf, MotionPct: 100})
 		}
 		req1 := rng.Range(2, nf/3)
 		req2 := req1 + 21 + rng.Range(0, 10)
+		// without motion recordings (a still scene, or the disk gate closed) every file in the
+		// output directory is a test recording
+		onlyTestFiles := motionPct == 0 || lowDisk
+		withClears := idx%4 == 0 && !lowDisk
+		if withClears {
+			// camera resets in the stream, one of them a few frames into the first test recording:
+			// they neither end nor restart a test recording and cost the continuous files nothing
+			// but the split the reset itself makes
+			at := map[int]bool{req1 + 1 + int(idx/4)%15: true, nf / 2: true, nf - 2: true}
+			var withMarkers []*pFrame
+			k := 0
+			for _, f := range frames {
+				if at[k] {
+					withMarkers = append(withMarkers, &pFrame{Clear: true, Seq: -1})
+				}
+				withMarkers = append(withMarkers, f)
+				k++
+			}
+			frames = withMarkers
+		}
 		// every fourth connection: the camera's telemetry is frozen (same non-zero frame counter,
 		// time-on and temperatures on every frame) while the pictures differ; frames are then
 		// identified by a border pixel
@@ -643,6 +680,19 @@ func TestVerif_C17Pipe(t *testing.T) {
 				if q+21 <= nf {
 					wantTest++
 				}
+			}
+			if onlyTestFiles && !frozen {
+				// a request too late to get its 21 frames before the connection ends yields no file
+				for _, d := range decodeDir(r.OutDir) {
+					if s := idsOf(d); d.Err != "" || len(s) != 21 {
+						c.Violation("test-recording", "main.go wiring", fmt.Sprintf("no motion recording can have been made on this connection (%d frames, requests before frames %d and %d); the output directory holds %s with frames %s %s", nf, req1, req2, d.Name, seqsString(s), d.Err))
+						return
+					}
+				}
+				c.Count("runs_where_every_file_is_a_test_recording", 1)
+			}
+			if withClears {
+				c.Count("runs_with_clear_markers", 1)
 			}
 			if found != wantTest {
 				names := []string{}
